@@ -267,6 +267,21 @@ Definition apply_cluster_rules (cached : bool) : res anchors :=
   let ordered := sort_by (fun a b : gene => lstart (snd a) <? lstart (snd b)) with_hits in
   fold_left (fun acc g => do a <- acc; rules_loop cached g [] 0 rules a) ordered (Ok []).
 
+(* specification of the anchoring genes (function id 6; not part of the transcription): every rule is
+   evaluated for every gene with hits over ALL genes of the record, the distance test of the conditions
+   (Details.in_range) measuring round the origin on every circular record.  This is what the cutoff window and
+   its circular_origin flag stand for: the window only pre-selects genes, in_range decides. *)
+Definition info_spec : info := (gs, if circular then N else 0).
+Fixpoint rules_loop_spec (g : gene) (ri : Z) (rs : list rule) (acc : anchors) : res anchors :=
+  match rs with
+  | [] => Ok acc
+  | r :: rest => do acc <- eval_rule g ri r info_spec acc; rules_loop_spec g (ri + 1) rest acc
+  end.
+Definition anchors_spec : res anchors :=
+  let with_hits := flat_map (fun h : Z * list (Z * Z) => match gene_by_id (fst h) with Some g => [g] | None => [] end) hs in
+  let ordered := sort_by (fun a b : gene => lstart (snd a) <? lstart (snd b)) with_hits in
+  fold_left (fun acc g => do a <- acc; rules_loop_spec g 0 rules a) ordered (Ok []).
+
 (* ---------- find_protoclusters: the chain sweep of one rule ---------- *)
 Definition sweep_step (cutoff : Z) (acc : res (list loc)) (g : loc) : res (list loc) :=
   do cores <- acc;                                  (* newest first *)
@@ -551,6 +566,10 @@ Definition run_C03 (fn : Z) (l : list Z) : list Z :=
          | None => bad_input end
   | 5 => match dInput l with
          | Some (N, circ, gs, hs, rules) => [failing_stage N circ gs hs rules]
+         | None => bad_input end
+  (* 6: specification of the anchoring genes per rule (whole record, ring distance) *)
+  | 6 => match dInput l with
+         | Some (N, circ, gs, hs, rules) => eAnchors (anchors_spec N circ gs hs rules)
          | None => bad_input end
   | _ => bad_input
   end.
